@@ -925,6 +925,21 @@ impl<'p, W, R, T> CompilationScope<'p, W, R, T> {
             XExpr::Call(func0, args) => {
                 let func_type = self.type_of(func0)?;
                 if let XType::XCallable(spec) = func_type.as_ref() {
+                    if args.len() != spec.param_types.len() {
+                        return Err(CompilationError::CallableBindingFailed);
+                    }
+                    let mut bind = Bind::new();
+                    for (param, arg) in spec.param_types.iter().zip(args) {
+                        let arg_type = self.type_of(arg)?;
+                        bind = bind
+                            .mix(&param.bind_in_assignment(&arg_type).ok_or(
+                                CompilationError::InvalidArgumentType {
+                                    expected: param.clone(),
+                                    got: arg_type,
+                                },
+                            )?)
+                            .ok_or(CompilationError::CallableBindingFailed)?;
+                    }
                     return Ok(spec.return_type.clone());
                 }
                 if let XType::XFunc(func) = func_type.as_ref() {
